@@ -20,11 +20,13 @@ SNAPSHOT = '1f51a90'          # the commit the anchors' line numbers refer to
 EXTRA = {
     'C01': {'lentil/fourier.py': ['dft2', 'idft2', '_dft2_matrices', '_dft2_coords']},
     'C02': {'lentil/propagate.py': ['propagate_dft', '_dft_alpha', '_mask_shape', '_mask_shift'], 'lentil/fourier.py': ['dft2', '_dft2_matrices', '_dft2_coords'],
-            'lentil/wavefront.py': ['Wavefront.field', 'Wavefront.intensity'], 'lentil/util.py': ['boundary']},
+            'lentil/wavefront.py': ['Wavefront.field', 'Wavefront.intensity'], 'lentil/util.py': ['boundary'],
+            # the observation points Wavefront.field / Wavefront.intensity read the result through field.insert and field.reduce -> _reduce -> _disjoint -> _merge
+            'lentil/field.py': ['insert', 'reduce', '_reduce', '_disjoint', '_merge', '_merge_shape', '_merge_slices', '_merge_offset', 'boundary']},
     'C03': {'lentil/extent.py': ['array_extent', 'intersect', 'intersection_slices', 'intersection_shift'], 'lentil/plane.py': ['Plane.shape', 'Plane.mask', 'Plane.multiply', '_plane_slice', 'TiltInterface.multiply', 'Tilt.__init__', 'Plane.fit_tilt', 'Pupil.multiply'], 'lentil/util.py': ['boundary'],
             'lentil/propagate.py': ['_dft_alpha', 'propagate_dft'], 'lentil/field.py': ['Field.shape', 'Field.size', 'Field.__init__', 'Field.__mul__', 'reduce', '_reduce', '_disjoint', '_merge', 'insert'],
             'lentil/fourier.py': ['dft2', '_dft2_matrices', '_dft2_coords'], 'lentil/wavefront.py': ['Wavefront.intensity', 'Wavefront.field', 'Wavefront.__mul__']},
-    'C04': {'lentil/field.py': ['Field.shape', 'Field.size', 'Field.__init__', 'Field.__mul__', 'Field.shift'], 'lentil/plane.py': ['Plane.fit_tilt', 'Plane.ptt_vector', 'Tilt.shift', 'Tilt.__init__', 'TiltInterface.multiply', 'DispersiveTilt.shift']},
+    'C04': {'lentil/field.py': ['Field.shape', 'Field.size', 'Field.__init__', 'Field.__mul__', 'Field.shift', 'insert'], 'lentil/wavefront.py': ['Wavefront.field'], 'lentil/plane.py': ['Plane.fit_tilt', 'Plane.ptt_vector', 'Tilt.shift', 'Tilt.__init__', 'TiltInterface.multiply', 'DispersiveTilt.shift']},
     'C05': {'lentil/plane.py': ['Plane.shape', 'Plane.multiply', 'Plane.mask', 'Plane.__init__'], 'lentil/wavefront.py': ['Wavefront.__init__', 'Wavefront.field', 'Wavefront.intensity'],
             'lentil/util.py': ['normalize_power'], 'lentil/propagate.py': ['_fft2', 'propagate_fft', 'propagate_dft'], 'lentil/fourier.py': ['dft2', '_dft2_matrices']},
     'C06': {'lentil/field.py': ['Field.shape', 'Field.size', 'Field.__init__', 'Field.__mul__', 'Field._mul_scalar', 'Field._mul_array', '_mul_broadcast', 'insert', 'merge', '_merge', '_merge_shape', '_merge_slices',
@@ -32,7 +34,8 @@ EXTRA = {
     'C07': {'lentil/extent.py': ['array_extent', 'intersect', 'intersection_slices', 'intersection_shift'], 'lentil/plane.py': ['Plane.shape', 'Plane.mask', 'Plane.amplitude', 'Plane.opd', 'Plane.multiply', '_mul_pixelscale', 'Pupil.multiply', 'Image.multiply', 'Plane.__init__', '_plane_slice', 'TiltInterface.multiply', 'Tilt.__init__'],
             'lentil/helper.py': ['boundary_slice', 'slice_offset'], 'lentil/util.py': ['boundary'], 'lentil/field.py': ['Field.shape', 'Field.size', 'Field.__init__', 'Field.__mul__', 'insert', 'reduce', '_reduce', '_disjoint', '_merge'], 'lentil/wavefront.py': ['Wavefront.field', 'Wavefront.intensity', 'Wavefront.insert', 'Wavefront.__mul__']},
     'C08': {'lentil/plane.py': ['Image.multiply', 'TiltInterface.multiply', 'Plane.__init__', 'Plane.multiply'], 'lentil/ptype.py': ['ptype']},
-    'C09': {'lentil/propagate.py': ['propagate_fft', '_fft_shape', '_fft2', 'scratch_shape', '_has_tilt'], 'lentil/util.py': ['pad']},
+    'C09': {'lentil/propagate.py': ['propagate_fft', '_fft_shape', '_fft2', 'scratch_shape', '_has_tilt'], 'lentil/util.py': ['pad'],
+            'lentil/field.py': ['insert'], 'lentil/wavefront.py': ['Wavefront.field']},      # the result is read through Wavefront.field -> field.insert
     'C10': {'lentil/detector.py': ['rule07_dark_current', 'dark_current', 'read_noise', 'shot_noise'], 'lentil/wfe.py': ['power_spectrum']},
     'C11': {'lentil/zernike.py': ['zernike', 'R', 'zernike_index', 'zernike_coordinates'], 'lentil/util.py': ['centroid'], 'lentil/helper.py': ['mesh']},
     'C12': {'lentil/zernike.py': ['zernike_fit', 'zernike_remove', 'zernike_compose', 'zernike_basis']},
